@@ -1,4 +1,5 @@
 import Bxh.Model.Ledger
+import Bxh.Proofs.LedgerQuery
 import Bxh.Exe.Sha256
 import Driver.Util
 namespace Driver.LedgerEngine
@@ -88,7 +89,8 @@ def step (s : St) (ws : List String) : St × String :=
     let (l', vs) := query l (parseAddr a) (tok p)
     let rank (b : Bytes) : Nat := match b with | none => 0 | some "" => 1 | _ => 2
     let vs := vs.mergeSort (fun x y => rank x ≤ rank y)
-    ({ s with l := l' }, (if vs.isEmpty then "0" else "1") ++ " [" ++ joinSp (vs.map showB) ++ "]")
+    -- do the hypotheses of C13_query_lists_exactly_the_live_keys hold of the state this query runs on?  (`queryHypB_sound`)
+    ({ s with l := l' }, (if vs.isEmpty then "0" else "1") ++ " [" ++ joinSp (vs.map showB) ++ "] ##m qhyp=" ++ (if queryHypB l then "1" else "0"))
   | ["snap"] => let (l', id) := snapshot l; ({ s with l := l' }, toString id)
   | ["revert", id] =>
     match revertTo (K s) l (id.toNat?.getD 0) with
